@@ -127,11 +127,11 @@ func vh_icmp6_other() {
 func vh_ndp_solicit() {
 	env := vhNewEnv()
 	env.cache.Own = func(a tcpip.Address) bool { return vufBool("own", uint64(a[15])|uint64(a[14])<<8|uint64(a[0])<<16) }
-	n := vnChoice("len", 3) + 30 // 30, 31, 32: around the minimum size
+	n := []int{23, 24, 32}[vnChoice("len", 3)] // around the minimum size (4+4+16)
 	b := vnBytes("ns", n)
 	b[0] = 135
 	env.e.handleICMP(&env.r, vhPkt(b, 0))
-	if n < 32 {
+	if n < 24 {
 		vassert(len(env.link.Sent) == 0 && len(env.cache.Added) == 0, "a truncated solicitation is ignored")
 		vreach("truncated")
 		return
